@@ -131,7 +131,7 @@ func (tr *GRIDTraveler) IsSignal() bool {
 }
 
 func (tr *GRIDTraveler) IsNull() bool {
-	return tr.Current != nil
+	return tr.Current == nil
 }
 
 // AddCurrent creates a new copy of the travel with new 'current' value
